@@ -119,33 +119,57 @@ def run(model, col, tier):
               "names are UTF-8 encoded", f"names are encoded as {r}", WA, ps)
     ex = model.cls(WA, "Export").own_method("WriteTo")
     col.check(any(isinstance(c, ast.Call) and last_attr(c) == "WriteString" for c in ast.walk(ex)), "R19.3", f"{WA}::Export.WriteTo uses WriteString", "export names go through WriteString", None, WA, ex)
-    # ---------------- R19.4 ------------------------------------------------------
+    check_encoder_shape(model, col, "R19.4")
+
+
+def check_encoder_shape(model, col, R):
+    """R19.4: shape of the LEB128 encoder loops."""
+    from ..miniev import CannotEval, ev
+
     pi = model.func(WA, "PackInteger")
     src = unparse(pi)
     loops = [n for n in ast.walk(pi) if isinstance(n, (ast.For, ast.While))]
-    col.floor("R19.4", "encoder loops", len(loops), 1)
+    col.floor(R, "encoder loops", len(loops), 2)
     for lp in loops:
         kind = "signed" if isinstance(lp, ast.While) else "unsigned"
         body = unparse(ast.Module(body=lp.body, type_ignores=[]))
         seven = "& 127" in body and ">>= 7" in body
         cont = "| 128" in body or "|= 128" in body
-        col.check(seven, "R19.4", f"{WA}::PackInteger {kind} loop groups", "each byte carries the low 7 bits, then the value is shifted right by 7",
+        col.check(seven, R, f"{WA}::PackInteger {kind} loop groups", "each byte carries the low 7 bits, then the value is shifted right by 7",
                   "the loop does not take `v & 0x7F` and shift right by 7 per byte", WA, lp)
-        col.check(cont, "R19.4", f"{WA}::PackInteger {kind} loop continuation bit", "non-final bytes get the 0x80 continuation bit", "no continuation bit is set", WA, lp)
+        col.check(cont, R, f"{WA}::PackInteger {kind} loop continuation bit", "non-final bytes get the 0x80 continuation bit", "no continuation bit is set", WA, lp)
         if kind == "unsigned":
             good = "bit_length() / 7" in src and "ceil" in src and isinstance(lp.iter, ast.Call) and dotted(lp.iter.func) == "range"
             conds = [n for n in ast.walk(lp) if isinstance(n, ast.If)]
             good = good and any("+ 1 < blockCount" in unparse(c.test) or "< blockCount - 1" in unparse(c.test) for c in conds)
-            col.check(good, "R19.4", f"{WA}::PackInteger unsigned termination", "ceil(bit_length / 7) bytes, continuation on all but the last",
+            col.check(good, R, f"{WA}::PackInteger unsigned termination", "ceil(bit_length / 7) bytes, continuation on all but the last",
                       "byte count / last-byte test is not ceil(bit_length/7) with continuation on all but the last byte", WA, lp)
         else:
-            tests = [unparse(n.test) for n in ast.walk(lp) if isinstance(n, ast.If)]
-            good = any("v == 0" in t and "v == -1" in t and "64" in t for t in tests)
-            col.check(good, "R19.4", f"{WA}::PackInteger signed termination", "stops when the rest is the sign extension of bit 6 (v == 0 and bit clear, or v == -1 and bit set)",
-                      f"termination tests {tests} do not compare the remaining value with 0 / -1 together with the sign bit 0x40 of the last group", WA, lp)
+            # fold the termination test over (remaining value, byte): stop iff the rest is the sign extension of bit 6
+            ifs = [n for n in ast.walk(lp) if isinstance(n, ast.If) and any(isinstance(s, ast.Return) or isinstance(s, ast.Break) for s in ast.walk(n))]
+            vname = pi.args.args[0].arg
+            bname = next((n.targets[0].id for n in ast.walk(lp) if isinstance(n, ast.Assign) and isinstance(n.targets[0], ast.Name) and "& 127" in unparse(n.value)), "b")
+            good = False
+            wrong = []
+            if ifs and isinstance(lp.test, ast.Constant):
+                good = True
+                for rest in (0, -1, 1, -2, 37, -100):
+                    for byte in (0x00, 0x01, 0x3F, 0x40, 0x41, 0x7F):
+                        try:
+                            stop = bool(ev(ifs[0].test, {vname: rest, bname: byte}))
+                        except CannotEval:
+                            stop = None
+                        want = (rest == 0 and not byte & 0x40) or (rest == -1 and bool(byte & 0x40))
+                        if stop is not want:
+                            good = False
+                            wrong.append((rest, hex(byte), stop))
+            tests = [unparse(n.test) for n in ifs]
+            col.check(good, R, f"{WA}::PackInteger signed termination", "stops exactly when the rest is the sign extension of bit 6 (v == 0 and bit clear, or v == -1 and bit set)",
+                      f"termination test {tests} (loop `while {unparse(lp.test)}`) decides (remaining value, byte) = {wrong[:3]} wrongly: the last byte's bit 6 must equal the sign of what remains, "
+                      "otherwise the value decodes with the wrong sign or one byte short", WA, lp)
     zero = [n for n in ast.walk(pi) if isinstance(n, ast.If) and "v == 0" in unparse(n.test) and any(isinstance(s, ast.Return) for s in n.body)]
-    col.check(bool(zero) or "while" in src, "R19.4", f"{WA}::PackInteger zero", "0 is written as a single 0x00 byte", None, WA, pi)
+    col.check(bool(zero) or "while" in src, R, f"{WA}::PackInteger zero", "0 is written as a single 0x00 byte", None, WA, pi)
     wi = model.func(WA, "WriteInteger")
     calls = [c for c in ast.walk(wi) if isinstance(c, ast.Call) and last_attr(c) == "PackInteger"]
     passes = bool(calls) and (len(calls[0].args) + len(calls[0].keywords)) == len(wi.args.args) - 1
-    col.check(passes, "R19.4", f"{WA}::WriteInteger forwards value and signedness", "output.write(PackInteger(i, signed))", "WriteInteger does not forward its signed flag to PackInteger", WA, wi)
+    col.check(passes, R, f"{WA}::WriteInteger forwards value and signedness", "output.write(PackInteger(i, signed))", "WriteInteger does not forward its signed flag to PackInteger", WA, wi)
